@@ -58,9 +58,20 @@ def gen_Lineno(repo: pathlib.Path) -> str:
     init = extract._func(cls, "__init__")
     errm = extract._func(cls, "error_message")
 
-    # the newline: the one-character string constant a loop variable is compared with
+    # the newline: the one-character string constant a loop variable is compared with — in ``__init__`` itself or in a
+    # function / method it calls by name (the table may be computed by a helper)
+    called = set()
+    for node in ast.walk(init):
+        if isinstance(node, ast.Call):
+            if isinstance(node.func, ast.Name):
+                called.add(node.func.id)
+            elif isinstance(node.func, ast.Attribute):
+                called.add(node.func.attr)
+    scopes: List[ast.AST] = [init]
+    scopes += [f for f in mod.body if isinstance(f, ast.FunctionDef) and f.name in called]
+    scopes += [f for f in cls.body if isinstance(f, ast.FunctionDef) and f.name in called and f is not init]
     newlines = set()
-    for loop in ast.walk(init):
+    for loop in (n for scope in scopes for n in ast.walk(scope)):
         if not isinstance(loop, ast.For) or not isinstance(loop.target, ast.Name):
             continue
         for node in ast.walk(loop):
